@@ -148,6 +148,17 @@ func verifMutationBase(k int) *ScopeSchema {
 			"l": p(NewListSchema(NewMapSchema(NewIntSchema(nil, nil, nil), NewBoolSchema(), nil, nil), nil, nil), false, nil),
 		}))
 	}
+	if k == 3 { // nested scopes under a list and under a map; a disabled property holding a reference
+		innerL := NewScopeSchema(NewObjectSchema("L", map[string]*PropertySchema{"z": p(NewFloatSchema(nil, nil, nil), false, nil)}))
+		innerM := NewScopeSchema(NewObjectSchema("M2", map[string]*PropertySchema{"q": p(NewBoolSchema(), false, nil)}))
+		dis := p(NewRefSchema("X", nil), false, nil)
+		dis.Disable("off")
+		return NewScopeSchema(NewObjectSchema("A", map[string]*PropertySchema{
+			"ls":  p(NewListSchema(innerL, nil, nil), false, nil),
+			"ms":  p(NewMapSchema(NewStringSchema(nil, nil, nil), innerM, nil, nil), false, nil),
+			"dis": dis,
+		}), NewObjectSchema("X", map[string]*PropertySchema{"v": p(NewIntSchema(nil, nil, nil), false, nil)}))
+	}
 	// inlined int one-of and a nested scope
 	inner := NewScopeSchema(NewObjectSchema("B", map[string]*PropertySchema{"z": p(NewFloatSchema(nil, nil, nil), false, nil)}))
 	return NewScopeSchema(NewObjectSchema("A", map[string]*PropertySchema{
@@ -160,7 +171,9 @@ func verifMutationBase(k int) *ScopeSchema {
 }
 
 func verifExerciseScope(s *ScopeSchema) {
-	inputs := []any{map[string]any{}, nil, "x", int64(5), map[string]any{"s": "ab", "o": map[string]any{"d": "x", "v": int64(1)}, "next": map[string]any{}}, map[any]any{"o": map[string]any{"d": int64(1)}, "in": map[string]any{"z": 1.5}, "y": []any{int64(1)}}}
+	inputs := []any{map[string]any{}, nil, "x", int64(5), map[string]any{"s": "ab", "o": map[string]any{"d": "x", "v": int64(1)}, "next": map[string]any{}}, map[any]any{"o": map[string]any{"d": int64(1)}, "in": map[string]any{"z": 1.5}, "y": []any{int64(1)}},
+		map[string]any{"ls": []any{map[string]any{"z": 1.5}, "x"}, "ms": map[string]any{"k": map[string]any{"q": true}, "j": int64(1)}},
+		map[string]any{"dis": map[string]any{"v": int64(1)}}}
 	for _, in := range inputs {
 		u, err := s.Unserialize(verifClone(in))
 		if err == nil {
@@ -176,7 +189,7 @@ func verifExerciseScope(s *ScopeSchema) {
 }
 
 func VerifC10_MutatedScope() {
-	base := verifMutationBase(nondetChoice("base", 3))
+	base := verifMutationBase(nondetChoice("base", 4))
 	d, err := base.SelfSerialize()
 	verifAssert("C10/scope/base-describes-itself", err == nil)
 	if err != nil {
